@@ -1,7 +1,7 @@
 (* C02 at source level: SrpProof::into_server and SrpClientChallenge::verify_server_proof as TRANSLATED
    FROM src/server.rs / src/client.rs on this run. *)
 From WS Require Import lib.Bytes lib.Res lib.Tape lib.Sha1 Consts Steps model.Bigint model.Srp model.Server model.Client
-  proofs.steps.ApiIntoServer proofs.steps.ApiClientProof.
+  proofs.steps.ApiIntoServer proofs.steps.ApiClientProof proofs.steps.Digests proofs.Srp proofs.Handshake.
 Local Open Scope N_scope.
 
 (* the server: whenever the session key can be computed, the presented proof is accepted exactly when
@@ -34,5 +34,29 @@ Proof.
     apply list_eqb_spec in E. contradiction.
 Qed.
 
+(* what acceptance by the translated server means for whoever produced the proof: if the presented value is
+   the translated calculate_client_proof of ANY (name, key, A, B, salt) - e.g. a client that typed another
+   password and so derived another key - and the translated into_server accepts it, then all five values are
+   the server's own, or an explicit SHA-1 collision has been exhibited *)
+Theorem C02_source_accept_binds : forall be u B salt b v A m t K r t' U' K' A' B' salt',
+  length salt = 32%nat -> length salt' = 32%nat -> length A = 32%nat -> length A' = 32%nat ->
+  length B = 32%nat -> length B' = 32%nat ->
+  calculate_session_key be A B v b = Ok K ->
+  tr_srp_calculate_client_proof U' K' A' B' salt' = Some m ->
+  tr_server_into_server be u B salt b v A m t = Some (inl r, t') ->
+  (u = U' /\ salt = salt' /\ A = A' /\ B = B' /\ K = K') \/ proofs.Handshake.collision.
+Proof.
+  intros be u B salt b v A m t K r t' U' K' A' B' salt' Hs Hs' HA HA' HB HB' HK Hm Hacc.
+  rewrite proofs.steps.Digests.calculate_client_proof_translated in Hm. injection Hm as <-.
+  destruct (C02_source_server_iff be u B salt b v A (calculate_client_proof U' K' A' B' salt') t K HK) as [_ Hne].
+  destruct (list_eqb (calculate_client_proof U' K' A' B' salt') (calculate_client_proof u K A B salt)) eqn:E.
+  - apply list_eqb_spec in E. rewrite !proofs.Srp.client_proof_spec in E. symmetry in E.
+    exact (proofs.Handshake.M1_binding _ _ _ _ _ _ _ _ _ _ _ _ Hs Hs' HA HA' HB HB' E).
+  - exfalso. assert (Hd : calculate_client_proof U' K' A' B' salt' <> calculate_client_proof u K A B salt).
+    { intro H. rewrite H, list_eqb_refl in E. discriminate. }
+    rewrite (Hne Hd) in Hacc. discriminate.
+Qed.
+
 Print Assumptions C02_source_server_iff.
+Print Assumptions C02_source_accept_binds.
 Print Assumptions C02_source_client_iff.
